@@ -201,7 +201,15 @@ func TestErrors(t *testing.T) {
 	var current error
 	var currentVal any
 	started := make(chan string, 1)
+	var batchErrs []error // "failix" returns the error its parameter names: several different failures in one batch
 	mux := handler.Map{
+		"failix": func(ctx context.Context, req *jrpc2.Request) (any, error) {
+			var p struct{ I int }
+			if err := req.UnmarshalParams(&p); err != nil || p.I < 0 || p.I >= len(batchErrs) {
+				return nil, errors.New("harness: bad index")
+			}
+			return nil, batchErrs[p.I]
+		},
 		"fail": func(ctx context.Context, req *jrpc2.Request) (any, error) { return nil, current },
 		"val":  func(ctx context.Context, req *jrpc2.Request) (any, error) { return currentVal, nil },
 		// the handler's own error must reach the caller also when its context was cancelled meanwhile
@@ -377,6 +385,47 @@ func TestErrors(t *testing.T) {
 				add(fmt.Sprintf("%T", v), "unmarshalable result", "connection unusable afterwards: "+err.Error())
 			}
 		}
+	}
+	// several different failures in one batch: every response carries the classification (and for an *Error the text and
+	// data) of ITS handler's error, whatever its batch-mates return
+	{
+		var group []Cell
+		flush := func() {
+			if len(group) < 2 {
+				return
+			}
+			batchErrs = batchErrs[:0]
+			var specs []jrpc2.Spec
+			for j, c := range group {
+				batchErrs = append(batchErrs, build(c.Tree, 100+j))
+				specs = append(specs, jrpc2.Spec{Method: "failix", Params: map[string]int{"i": j}})
+			}
+			res.Evaluations++
+			rsps, err := loc.Client.Batch(ctx, specs)
+			if err != nil || len(rsps) != len(group) {
+				add(group[0].Tree, "Batch of failures", fmt.Sprintf("Batch: %d responses, err %v", len(rsps), err))
+			} else {
+				for j, c := range group {
+					he, je := batchErrs[j], rsps[j].Error()
+					if je == nil || int(je.Code) != int(jrpc2.ErrorCode(he)) {
+						add(c.Tree, "Batch of failures", fmt.Sprintf("member %d of %d: response error %v, its handler's error has code %d", j+1, len(group), je, jrpc2.ErrorCode(he)))
+					} else if x, ok := he.(*jrpc2.Error); ok && c.Exact && (je.Message != x.Message || !jsonEqual(je.Data, x.Data)) {
+						add(c.Tree, "Batch of failures", fmt.Sprintf("member %d of %d: *Error changed in transit: sent %+v, got %+v", j+1, len(group), x, je))
+					}
+				}
+			}
+			group = group[:0]
+		}
+		for i, c := range tab.Cells {
+			if i%nshard != shard {
+				continue
+			}
+			group = append(group, c)
+			if len(group) == 4 {
+				flush()
+			}
+		}
+		flush()
 	}
 	if shard == 0 {
 		// an *Error whose data cannot be encoded as it stands still becomes an error response (never a missing one)
